@@ -10,6 +10,7 @@ mod c15;
 mod c16;
 mod cbes;
 mod common;
+mod locktab;
 
 use std::{
     collections::{BTreeMap, HashSet},
@@ -46,6 +47,7 @@ fn generate(prop: &str, seed: u64, thorough: bool) -> Value {
         "C15" => serde_json::to_value(c15::generate(seed, thorough)).unwrap(),
         "C16" => serde_json::to_value(c16::generate(seed, thorough)).unwrap(),
         "C02" => serde_json::to_value(cbes::generate(seed, thorough)).unwrap(),
+        "C16b" => serde_json::to_value(locktab::generate(seed, thorough)).unwrap(),
         _ => panic!("unknown property {prop}"),
     }
 }
@@ -57,6 +59,7 @@ fn run(prop: &str, sc: &Value, replay: Option<Vec<String>>) -> Outcome {
         "C15" => c15::run(&serde_json::from_value(sc.clone()).unwrap(), replay),
         "C16" => c16::run(&serde_json::from_value(sc.clone()).unwrap(), replay),
         "C02" => cbes::run(&serde_json::from_value(sc.clone()).unwrap(), replay),
+        "C16b" => locktab::run(&serde_json::from_value(sc.clone()).unwrap(), replay),
         _ => panic!("unknown property {prop}"),
     }
 }
@@ -71,6 +74,7 @@ fn candidates(prop: &str, sc: &Value) -> Vec<Value> {
         "C15" => conv(c15::shrink_candidates(&serde_json::from_value(sc.clone()).unwrap())),
         "C16" => conv(c16::shrink_candidates(&serde_json::from_value(sc.clone()).unwrap())),
         "C02" => conv(cbes::shrink_candidates(&serde_json::from_value(sc.clone()).unwrap())),
+        "C16b" => conv(locktab::shrink_candidates(&serde_json::from_value(sc.clone()).unwrap())),
         _ => vec![],
     }
 }
